@@ -580,7 +580,7 @@ def r_dom_store(ctx):
         if name == 'dominated':
             ctx.check(any(M.is_const(x, False) for x in defs) and all(M.is_const(x) for x in defs), 'R10.3', 'dominated-init', b, b.loc(0), 'dominated starts false', 'dominated is initialised with %s' % [M.show(x) for x in defs])
         else:
-            okd = any(isinstance(x, tuple) and x[0] == 'aggr' and x[2] == 'Some' and M.is_const(x[3][0][1]) and (x[3][0][1][2] or '').endswith('MAX') for x in defs)
+            okd = any(isinstance(x, tuple) and x[0] == 'aggr' and x[2] == 'Some' and is_max_const(x[3][0][1]) for x in defs)
             ctx.check(okd, 'R10.4', 'threshold-init', b, b.loc(0), 'the threshold starts at Some(MAX) (value when values are not used)', 'threshold is initialised with %s' % [M.show(x) for x in defs])
 
 
